@@ -93,6 +93,13 @@ theorem parseInfixExpression_ok {f : Nat} {st st1 : PState} {l r : ONode}
   have h0' : ¬ ((st.cur.tk).type = .COLON ∧ st.peek.type = .RBRACKET) := h0
   simp [bind_apply, h, h0']
 
+theorem parseInfixExpression_open {f : Nat} {st : PState} {l : ONode}
+    (h0 : st.cur.type = .COLON) (h1 : st.peek.type = .RBRACKET) :
+    parseInfixExpression s (f + 1) l st = .ok (some (.infix st.cur.tk l none), st) := by
+  unfold parseInfixExpression
+  have h0' : (st.cur.tk).type = .COLON := h0
+  simp [bind_apply, h0', h1]
+
 theorem parseGroupedExpression_ok {f : Nat} {st st1 : PState} {e : ONode}
     (h : parseExpression s f prioLOWEST (advance s st) = .ok (e, st1)) (hp : st1.peek.type = .RPAREN) :
     parseGroupedExpression s (f + 1) st = .ok (e, advance s st1) := by
@@ -296,5 +303,94 @@ theorem parseIfExpression_elseif {f : Nat} {st st1 st2 st3 : PState} {cond altN 
     parseIfExpression s (f + 1) st = .ok (some (.ifE st.cur.tk cond cons (some [altN])), st3) := by
   conv => lhs; unfold parseIfExpression
   simp [bind_apply, h1, expectPeek_ok h2, h3, h4, h5, h6, h7]
+
+/-! ### macros, map literals, lambdas -/
+
+@[simp] theorem pd_macro (f : Nat) : prefixDispatch s (f + 1) .parseMacroLiteral = parseMacroLiteral s f := rfl
+@[simp] theorem pd_map (f : Nat) : prefixDispatch s (f + 1) .parseMapLiteral = parseMapLiteral s f := rfl
+@[simp] theorem id_lambda (f : Nat) (l : ONode) : infixDispatch s (f + 1) .parseLambdaExpression l = parseLambdaMulti s f l [] := rfl
+
+theorem parseMacroLiteral_ok {f : Nat} {st st1 st2 : PState} {params : NList} {variadic : Bool} {body : Stmts}
+    (h0 : st.peek.type = .LPAREN) (h1 : parseFunctionParameters s f (advance s st) = .ok ((params, variadic), st1))
+    (h2 : st1.peek.type = .LBRACE) (h3 : parseBlockStatement s f (advance s st1) = .ok (body, st2)) (h4 : st2.cont = false) :
+    parseMacroLiteral s (f + 1) st = .ok (some (.macroLit st.cur.tk params body), st2) := by
+  unfold parseMacroLiteral
+  simp [bind_apply, expectPeek_ok h0, h1, expectPeek_ok h2, h3, h4]
+
+theorem parseMapLiteral_eq (f : Nat) (st : PState) : parseMapLiteral s (f + 1) st = parseMapLoop s f st.cur.tk [] st := by
+  conv => lhs; unfold parseMapLiteral
+  simp [bind_apply]
+
+theorem parseMapLoop_close {f : Nat} {st : PState} {tok : Tk} {kvs : NList} (h : st.peek.type = .RBRACE) :
+    parseMapLoop s (f + 1) tok kvs st = .ok (some (.mapLit tok kvs), advance s st) := by
+  unfold parseMapLoop
+  simp [bind_apply, h, expectPeek_ok h]
+
+theorem parseMapLoop_comma {f : Nat} {st st1 : PState} {tok t : Tk} {kvs : NList} {k : Node} {v : ONode}
+    (h0 : st.peek.type ≠ .RBRACE) (hc : st.cont = false)
+    (h1 : parseExpression s f prioLOWEST (advance s st) = .ok (some (.infix t (some k) v), st1)) (ht : t.type = .COLON)
+    (h2 : st1.peek.type = .COMMA) :
+    parseMapLoop s (f + 1) tok kvs st = parseMapLoop s f tok (kvs ++ [some k, v]) (advance s st1) := by
+  conv => lhs; unfold parseMapLoop
+  have hn : st1.peek.type ≠ .RBRACE := by rw [h2]; decide
+  simp [bind_apply, h0, hc, h1, ht, hn, expectPeek_ok h2, mapInsert]
+
+theorem parseMapLoop_last {f : Nat} {st st1 : PState} {tok t : Tk} {kvs : NList} {k : Node} {v : ONode}
+    (h0 : st.peek.type ≠ .RBRACE) (hc : st.cont = false)
+    (h1 : parseExpression s f prioLOWEST (advance s st) = .ok (some (.infix t (some k) v), st1)) (ht : t.type = .COLON)
+    (h2 : st1.peek.type = .RBRACE) :
+    parseMapLoop s (f + 1) tok kvs st = parseMapLoop s f tok (kvs ++ [some k, v]) st1 := by
+  conv => lhs; unfold parseMapLoop
+  simp [bind_apply, h0, hc, h1, ht, h2, mapInsert]
+
+/-- `parseExpression` when the prefix expression is followed by `=>` at a level other than LAMBDA: the loop takes it -/
+theorem pE_step' {f P : Nat} {st st1 : PState} {fn : PrefixFn} {l : ONode}
+    (h1 : st.cur.type ≠ .EOL) (h2 : lookup prefixRegs st.cur.type = some fn)
+    (h3 : prefixDispatch s f fn st = .ok (l, st1)) (h4 : ¬ (st1.peek.type = .LAMBDA ∧ P = prioLAMBDA)) :
+    parseExpression s (f + 1) P st = parseExpressionLoop s f P l st1 := by
+  conv => lhs; unfold parseExpression
+  simp [bind_apply, h1, h2, h3, h4]
+
+/-- … and at level LAMBDA: the lambda is built directly -/
+theorem pE_lambda5 {f : Nat} {st st1 : PState} {fn : PrefixFn} {l : ONode}
+    (h1 : st.cur.type ≠ .EOL) (h2 : lookup prefixRegs st.cur.type = some fn)
+    (h3 : prefixDispatch s f fn st = .ok (l, st1)) (h4 : st1.peek.type = .LAMBDA) :
+    parseExpression s (f + 1) prioLAMBDA st = parseLambdaMulti s f l [] (advance s st1) := by
+  conv => lhs; unfold parseExpression
+  simp [bind_apply, h1, h2, h3, h4]
+
+/-- `()` of `() => …`: no expression, no error -/
+theorem pE_empty_parens {f P : Nat} {st : PState} (h1 : st.cur.type ≠ .EOL) (h2 : lookup prefixRegs st.cur.type = none)
+    (h3 : st.peek.type = .LAMBDA) : parseExpression s (f + 1) P st = .ok (none, st) := by
+  unfold parseExpression
+  simp [bind_apply, h1, h2, h3]
+
+theorem parseGroupedExpression_lambda0 {f : Nat} {st st1 : PState} {e : ONode}
+    (h : parseExpression s f prioLOWEST (advance s st) = .ok (e, st1)) (hp : st1.peek.type = .LAMBDA) :
+    parseGroupedExpression s (f + 1) st = parseLambdaMulti s f e [] (advance s st1) := by
+  conv => lhs; unfold parseGroupedExpression
+  simp [bind_apply, h, hp]
+
+theorem parseGroupedExpression_lambdaN {f : Nat} {st st1 st2 : PState} {e : ONode} {el : NList}
+    (h : parseExpression s f prioLOWEST (advance s st) = .ok (e, st1)) (hp : st1.peek.type = .COMMA)
+    (h2 : parseExpressionList s f .RPAREN (advance s st1) = .ok (some el, st2)) (hp2 : st2.peek.type = .LAMBDA) :
+    parseGroupedExpression s (f + 1) st = parseLambdaMulti s f e el (advance s st2) := by
+  conv => lhs; unfold parseGroupedExpression
+  have hn : st1.peek.type ≠ .LAMBDA := by rw [hp]; decide
+  simp [bind_apply, h, hn, hp, h2, expectPeek_ok hp2]
+
+theorem parseLambdaMulti_some {f : Nat} {st st2 : PState} {l : Node} {more : NList} {t : Option Tk} {body : Stmts}
+    (hok : okParamList (some l :: more) = some (t, true))
+    (h2 : st.peek.type = .LBRACE) (h3 : parseBlockStatement s f (advance s st) = .ok (body, st2)) (h4 : st2.cont = false) :
+    parseLambdaMulti s (f + 1) (some l) more st = .ok (some (.func st.cur.tk none (some l :: more) body t.isSome true), st2) := by
+  unfold parseLambdaMulti
+  simp [bind_apply, hok, h2, h3, h4]
+
+theorem parseLambdaMulti_none {f : Nat} {st st2 : PState} {more : NList} {t : Option Tk} {body : Stmts}
+    (hok : okParamList more = some (t, true))
+    (h2 : st.peek.type = .LBRACE) (h3 : parseBlockStatement s f (advance s st) = .ok (body, st2)) (h4 : st2.cont = false) :
+    parseLambdaMulti s (f + 1) none more st = .ok (some (.func st.cur.tk none more body t.isSome true), st2) := by
+  unfold parseLambdaMulti
+  simp [bind_apply, hok, h2, h3, h4]
 
 end Grol.RT
